@@ -12,6 +12,7 @@ import SwimVerif.Proofs.ValueLane
 import SwimVerif.Proofs.C03Lines
 import SwimVerif.Proofs.C03Indep
 import SwimVerif.Proofs.C03Fails
+import SwimVerif.Proofs.PruneRt
 
 set_option linter.unusedVariables false
 namespace SwimVerif.ML
@@ -267,3 +268,129 @@ theorem C03_value_sync_keeps_pending_event (s : St) (r : Nat) (rest : List Nat) 
   simp [step, h, hd]
 
 end SwimVerif.VL
+
+/-!
+## Who is still registered when it links or syncs: the prune glue of the write task (`Model/PruneRt.lean`)
+
+Quantifier: every `prune_remote_delay` `D > 0`, every script of remotes attaching at different times, linking,
+unlinking, syncing (answered by the lane), lane events and clock advances. `reachPr D ops` = the state of the model
+(`PruneRemotes` queue with its one shared, re-armed timer; `remove_remote_if_idle`) after the script.
+`idleOf s r` = the moment since which `r` has been without links; `sched` = the moments at which a prune timeout was
+scheduled for a remote (when it attached, and whenever an unlink removed its last link).
+-/
+namespace SwimVerif.PruneRt
+open SwimVerif
+
+def reachPr (D : Nat) (ops : List Op) : St := run (init D) ops
+
+theorem reachPr_inv (D : Nat) (hD : 0 < D) (ops : List Op) : PInv (reachPr D ops) := pinv_run (pinv_init D hD) ops
+
+/-- **A remote is deregistered only by the clock, only while it has no link, and only at the deadline of a timeout that
+was scheduled for IT**: that deadline is the full delay after a moment at which the remote attached or lost its last
+link. (With the shared timer re-armed per entry nobody is pruned at somebody else's deadline.) -/
+theorem C03_prune_closed_only_linkless_at_own_deadline (D : Nat) (hD : 0 < D) (ops : List Op) (op : Op) (r t : Nat)
+    (hm : (r, Ev.closed t) ∈ (step (reachPr D ops) op).2.2) :
+    (∃ k, op = .adv k) ∧ r ∈ (reachPr D ops).reg ∧ (∀ l, (l, r) ∉ (reachPr D ops).links) ∧
+    ∃ p, (r, p) ∈ (reachPr D ops).sched ∧ t = p + D ∧ p ≤ idleOf (reachPr D ops) r := by
+  have h := reachPr_inv D hD ops
+  obtain ⟨hk, hq, hl, hr⟩ := closed_of_step _ op r t hm
+  obtain ⟨p, hp, ht, _⟩ := h.q6 r t hq
+  have hDD : (reachPr D ops).D = D := by
+    have : ∀ (s : St) (ops : List Op), (run s ops).D = s.D := by
+      intro s ops
+      induction ops generalizing s with
+      | nil => rfl
+      | cons o os ih =>
+        simp only [run, List.foldl] at ih ⊢
+        rw [ih]
+        have hadv : ∀ fuel target (x : St), (advLoop fuel target x).1.D = x.D := by
+          intro fuel target
+          induction fuel with
+          | zero => intro x; rfl
+          | succ fuel ih2 =>
+            intro x
+            match hq : x.queue with
+            | [] => rw [advLoop_nil _ _ _ hq]
+            | (r0, d) :: rest =>
+              by_cases hd : d ≤ target
+              · rw [advLoop_due _ _ _ hq hd]; simp only []; rw [ih2]; unfold fire; split <;> rfl
+              · rw [advLoop_notdue _ _ _ hq hd]
+        have hal : ∀ (x : St) l r, (addLink x l r).D = x.D := by intro x l r; unfold addLink; split <;> rfl
+        cases o with
+        | adv k => exact hadv _ _ _
+        | ev l => rfl
+        | attach r => simp only [step]; split <;> rfl
+        | link r l => simp only [step]; (repeat' split) <;> first | rfl | exact hal _ _ _
+        | rsync r l => simp only [step]; (repeat' split) <;> first | rfl | exact hal _ _ _
+        | unlink r l => simp only [step]; (repeat' split) <;> rfl
+    exact this (init D) ops
+  exact ⟨hk, hr, (linkless_iff _ r).mp hl, p, hp, by rw [ht, hDD], (h.q7 r p hp).1⟩
+
+/-- **A remote that has a link when its timeout fires survives**: no advance of the clock closes a linked remote. -/
+theorem C03_prune_linked_remote_survives (D : Nat) (hD : 0 < D) (ops : List Op) (k l r t : Nat)
+    (hl : (l, r) ∈ (reachPr D ops).links) : (r, Ev.closed t) ∉ (step (reachPr D ops) (.adv k)).2.2 := by
+  intro hm
+  exact (C03_prune_closed_only_linkless_at_own_deadline D hD ops _ r t hm).2.2.1 l hl
+
+/-- **A request from a registered remote is always answered**: its `link` gets `linked`, its sync (answered by the
+lane) gets `linked` unless already linked, the event and `synced`; and it stays registered. -/
+theorem C03_prune_registered_request_answered (D : Nat) (ops : List Op) (r l : Nat) (hl : l < 2)
+    (hr : r ∈ (reachPr D ops).reg) (ha : r ∈ (reachPr D ops).att) :
+    (r, Ev.linked l) ∈ (step (reachPr D ops) (.link r l)).2.2 ∧
+    (r, Ev.synced l) ∈ (step (reachPr D ops) (.rsync r l)).2.2 ∧
+    (r, Ev.ev l) ∈ (step (reachPr D ops) (.rsync r l)).2.2 ∧
+    ((l, r) ∈ (reachPr D ops).links ∨ (r, Ev.linked l) ∈ (step (reachPr D ops) (.rsync r l)).2.2) ∧
+    (l, r) ∈ (step (reachPr D ops) (.rsync r l)).1.links ∧ r ∈ (step (reachPr D ops) (.rsync r l)).1.reg := by
+  generalize reachPr D ops = s at *
+  have hr' : s.reg.contains r = true := by simpa using hr
+  have ha' : s.att.contains r = true := by simpa using ha
+  have hlk : (l, r) ∈ (addLink s l r).links := by
+    unfold addLink; split
+    · rename_i h; simpa [linked] using h
+    · exact List.mem_cons_self
+  refine ⟨by simp [step, ha, hl, hr], by simp [step, ha, hl, hr], by simp [step, ha, hl, hr], ?_, ?_, ?_⟩
+  · by_cases hk : linked s l r = true
+    · left; simpa [linked] using hk
+    · right; simp [step, ha, hl, hr, hk]
+  · simp only [step, ha', hl, hr', decide_true, Bool.and_self, if_true]; exact hlk
+  · simp only [step, ha', hl, hr', decide_true, Bool.and_self, if_true]
+    rw [(addLink_same s l r).2.2]; exact hr
+
+/-- **Nobody outstays its delay**: a remote that is still registered and has no link has been without links for less
+than the delay — its timeout is queued with the deadline `idleOf + D`, and every queued deadline lies in the future. -/
+theorem C03_prune_idle_remote_removed_in_time (D : Nat) (hD : 0 < D) (ops : List Op) (r : Nat)
+    (hr : r ∈ (reachPr D ops).reg) (hl : ∀ l, (l, r) ∉ (reachPr D ops).links) :
+    (r, idleOf (reachPr D ops) r + (reachPr D ops).D) ∈ (reachPr D ops).queue ∧
+    (reachPr D ops).now < idleOf (reachPr D ops) r + (reachPr D ops).D := by
+  have h := reachPr_inv D hD ops
+  have hq := h.q3 r hr (by simp) ((linkless_iff _ r).mpr hl)
+  exact ⟨hq, h.q1 r _ hq⟩
+
+/-- "A remote is removed only after it has been CONTINUOUSLY without links for the full delay" is **false** of the code
+as it is: a queued timeout is never withdrawn, so an old entry of the same remote removes it (finding C03-N1). -/
+def C03_prune_removed_only_after_full_delay : Prop :=
+  ∀ (D : Nat) (ops : List Op) (op : Op) (r t : Nat), 0 < D →
+    (r, Ev.closed t) ∈ (step (reachPr D ops) op).2.2 → idleOf (reachPr D ops) r + D ≤ t
+
+/-- Witness: attached at 0, linked at 100, unlinked at 600, removed at 701. -/
+theorem C03_prune_removed_only_after_full_delay_fails : ¬ C03_prune_removed_only_after_full_delay := by
+  intro h
+  have := h 701 [.attach 1, .adv 1, .link 1 0, .adv 5, .unlink 1 0] (.adv 2) 1 701 (by decide) (by decide)
+  revert this
+  decide
+
+/-- What does hold: for a remote that has had one link-less period only (it never got a second timeout scheduled) the
+removal comes exactly the full delay after that period began. -/
+theorem C03_prune_removed_only_after_full_delay_partial (D : Nat) (hD : 0 < D) (ops : List Op) (op : Op) (r t : Nat)
+    (hm : (r, Ev.closed t) ∈ (step (reachPr D ops) op).2.2)
+    (hone : ∀ p, (r, p) ∈ (reachPr D ops).sched → p = idleOf (reachPr D ops) r) :
+    t = idleOf (reachPr D ops) r + D := by
+  obtain ⟨_, _, _, p, hp, ht, _⟩ := C03_prune_closed_only_linkless_at_own_deadline D hD ops op r t hm
+  rw [ht, hone p hp]
+
+example : (step (reachPr 701 [.attach 1, .adv 4, .attach 2]) (.adv 4)).2.2 = [(1, .closed 701)] := by decide
+example : (step (reachPr 701 [.attach 1, .adv 4, .attach 2, .adv 4]) (.rsync 2 1)).2.2 =
+    [(2, .linked 1), (2, .ev 1), (2, .synced 1)] := by decide
+example : (step (reachPr 701 [.attach 1, .adv 4, .attach 2, .adv 4]) (.adv 4)).2.2 = [(2, .closed 1101)] := by decide
+
+end SwimVerif.PruneRt
